@@ -123,6 +123,10 @@ func VerifNewPool(db store.Store, bs store.BalanceStore, price *big.Int, interva
 
 var verifNonce int64
 
+// VerifBlockNumber is the block number the next keep-alives report (harnesses may vary it: a node's
+// head can lag or be reorganised, so reported numbers are not monotonic).
+var VerifBlockNumber uint64 = 1
+
 // VerifFreshNonce returns a fresh, strictly increasing nonce inside the freshness window.
 func VerifFreshNonce() int64 {
 	n := verifapi.Now().UnixNano()
@@ -143,7 +147,7 @@ func VerifPeerInfos(ids ...string) []ethnode.PeerInfo {
 
 // VerifUpdate performs a correctly signed vipnode_update.
 func VerifUpdate(p *VipnodePool, ctx context.Context, nodeID string, peers ...string) (*UpdateResponse, error) {
-	req := UpdateRequest{PeerInfo: VerifPeerInfos(peers...), BlockNumber: 1}
+	req := UpdateRequest{PeerInfo: VerifPeerInfos(peers...), BlockNumber: VerifBlockNumber}
 	nonce := VerifFreshNonce()
 	sig := sigs.SignFor(nodeID, "vipnode_update", nonce, req)
 	return p.Update(ctx, sig, nodeID, nonce, req)
